@@ -117,9 +117,9 @@ func (m *MonReach) Finish(nw *Network) {}
 // of their timestamps happen to coincide; counting the differences tells how
 // often agreement depended on that coincidence.
 type MonFame struct {
-	canon map[int]string
-	from  map[int]int
-	done  map[[2]int]bool
+	canon  map[int]string
+	from   map[int]int
+	done   map[[2]int]bool
 	Strict bool
 }
 
@@ -172,7 +172,7 @@ type MonLateSets struct {
 	processed map[*App]int
 }
 
-func NewMonLateSets() *MonLateSets { return &MonLateSets{processed: map[*App]int{}} }
+func NewMonLateSets() *MonLateSets  { return &MonLateSets{processed: map[*App]int{}} }
 func (m *MonLateSets) Name() string { return "latesets" }
 func (m *MonLateSets) AfterStep(nw *Network) {
 	for _, n := range nw.Nodes {
